@@ -148,6 +148,12 @@ def body_for(beh: Dict[str, Any], req: Optional[Dict[str, Any]]) -> Tuple[bytes,
         # terminal message
         raw = ("event: message\ndata: " + json.dumps(note1) + "\n\nevent: message\ndata: " + json.dumps(resp)[:25]).encode("utf-8")
         return raw, [note1]
+    elif kind.startswith("sse_note_then_nonmessage:"):
+        # a notification, then a complete message event whose data is no JSON-RPC message at all (plain text, a JSON
+        # scalar, a JSON string): broken, and nothing answers the request - it still needs its terminal message
+        junk = {"text": "hello", "number": "42", "string": '"oops"', "true": "true", "html": "<html>502</html>"}[kind.split(":")[1]]
+        raw = ("event: message\ndata: " + json.dumps(note1) + "\n\nevent: message\ndata: " + junk + "\n\n").encode("utf-8")
+        return raw, [note1]
     elif kind == "json_batch_note_then_junk":
         return json.dumps([note1, {"foo": "not a message"}]).encode("utf-8"), [note1]
     elif kind == "sse_batch_in_one_event":
@@ -240,6 +246,8 @@ def single_behaviours() -> List[Dict[str, Any]]:
             for ct in ("json", "other", None):
                 out.append({"status": status, "ctype": ct, "body": body})
     out.append({"status": 200, "ctype": "sse", "body": "sse_note_then_truncated"})
+    for j_ in ("text", "number", "string", "true", "html"):
+        out.append({"status": 200, "ctype": "sse", "body": "sse_note_then_nonmessage:" + j_})
     out.append({"status": 200, "ctype": "json", "body": "json_batch_note_then_junk"})
     out.append({"status": 200, "ctype": "sse", "body": "sse_batch_in_one_event"})
     for body in ("response_list", "response_str", "response_zero", "response_emptyobj", "notes_then_response_list", "response_null",
@@ -365,7 +373,7 @@ def reference(step: Dict[str, Any], req_wire: Dict[str, Any]) -> Dict[str, Any]:
                                                "result": {"echo": req_wire.get("method"), "text": TEXT, "n": None}}]]}
     raw, msgs = body_for(beh, req_wire)
     ct = {"sse_upper": "sse", "json_upper": "json"}.get(beh.get("ctype"), beh.get("ctype"))
-    if beh.get("body") in ("sse_note_then_truncated", "json_batch_note_then_junk"):
+    if beh.get("body") in ("sse_note_then_truncated", "json_batch_note_then_junk") or str(beh.get("body")).startswith("sse_note_then_nonmessage:"):
         # the well-formed part is delivered, and since no answer came the request still ends in one terminal message
         return {"mode": "partial_then_terminal", "alts": [msgs]}
     if ct in ("json", "json_charset"):
